@@ -16,6 +16,7 @@ func init() { Registry["C13"] = checkC13 }
 func checkC13(c *Ctx) {
 	c.R.NotCover = append(c.R.NotCover, "the FIFO / functional behaviour over operation sequences (growth while wrapped, id reuse): static analysis gives the invariant-maintenance shape, not the invariant's consequences", "the copy arithmetic of grow() (which slots land where)")
 	c.useRules(ruleP5, ruleP9, ruleP4, ruleP3, ruleL1)
+	c.sessionQueuesWriteOnce()
 	c.retentionFresh("sessions", "AckMsg", map[string]string{"OnComplete": "the completion callback is meant to be retained"})
 	c.queueIndexRules()
 	c.terminalTables()
